@@ -28,7 +28,9 @@ import (
 //	verifvs.Access("<names>")
 //
 // is inserted: a scheduling point plus a conflicting operation on the named
-// objects (happens-before hashing). A statement is the unit of atomicity.
+// objects (happens-before hashing). Local variables assigned from an
+// expression that mentions a suspect count as aliases of it. A statement is
+// the unit of atomicity.
 // Files without insertions are not emitted. For every emitted file one line
 // "<source path>\t<generated path>" is printed (for the build overlay).
 func globalsMode(dir, outPrefix, shim string) {
@@ -161,8 +163,87 @@ func globalsMode(dir, outPrefix, shim string) {
 		return
 	}
 
-	// refs: suspect variables mentioned by the expressions of a node, not
-	// descending into function literals (their bodies are handled on their own)
+	// aliases: a local variable assigned from an expression that mentions a
+	// suspect (b := scratch[:], p := &counter, m := table) may be another
+	// name for the same memory; statements that mention such a local get a
+	// point as well. Flow-insensitive, to a fixpoint, per file; over-tainting
+	// only adds points.
+	tainted := map[*ast.Object]map[string]bool{}
+	mentions := func(n ast.Node) map[string]bool {
+		out := map[string]bool{}
+		ast.Inspect(n, func(m ast.Node) bool {
+			if id, ok := m.(*ast.Ident); ok && id.Obj != nil {
+				if suspect[id.Obj] {
+					out[pkgVars[id.Obj]] = true
+				}
+				for k := range tainted[id.Obj] {
+					out[k] = true
+				}
+			}
+			return true
+		})
+		return out
+	}
+	taint := func(lhs ast.Expr, src map[string]bool) bool {
+		id, ok := lhs.(*ast.Ident)
+		if !ok || id.Obj == nil || id.Name == "_" || len(src) == 0 {
+			return false
+		}
+		if _, isPkg := pkgVars[id.Obj]; isPkg {
+			return false
+		}
+		changed := false
+		if tainted[id.Obj] == nil {
+			tainted[id.Obj] = map[string]bool{}
+		}
+		for k := range src {
+			if !tainted[id.Obj][k] {
+				tainted[id.Obj][k] = true
+				changed = true
+			}
+		}
+		return changed
+	}
+	for round := 0; round < 4; round++ {
+		changedAny := false
+		for _, p := range names {
+			ast.Inspect(files[p], func(n ast.Node) bool {
+				switch x := n.(type) {
+				case *ast.AssignStmt:
+					for i, l := range x.Lhs {
+						var r ast.Node
+						if len(x.Rhs) == len(x.Lhs) {
+							r = x.Rhs[i]
+						} else if len(x.Rhs) == 1 {
+							r = x.Rhs[0]
+						}
+						if r != nil && taint(l, mentions(r)) {
+							changedAny = true
+						}
+					}
+				case *ast.ValueSpec:
+					for i, id := range x.Names {
+						if i < len(x.Values) && taint(id, mentions(x.Values[i])) {
+							changedAny = true
+						}
+					}
+				case *ast.RangeStmt:
+					src := mentions(x.X)
+					if x.Value != nil && taint(x.Value, src) {
+						changedAny = true
+					}
+				}
+				return true
+			})
+		}
+		if !changedAny {
+			break
+		}
+	}
+
+	// refs: suspect variables (and their local aliases) mentioned by the
+	// expressions of a node, not descending into function literals (their
+	// bodies are handled on their own)
 	var refs func(n ast.Node, into map[string]bool)
 	refs = func(n ast.Node, into map[string]bool) {
 		if n == nil {
@@ -175,6 +256,11 @@ func globalsMode(dir, outPrefix, shim string) {
 			case *ast.Ident:
 				if x.Obj != nil && suspect[x.Obj] {
 					into[pkgVars[x.Obj]] = true
+				}
+				if x.Obj != nil {
+					for k := range tainted[x.Obj] {
+						into[k] = true
+					}
 				}
 			}
 			return true
